@@ -86,14 +86,14 @@ def consist_getters_case(comp):
     def fuel(c):
         tot = 0
         for j, ch in enumerate(comp):
-            if ch == "C":
+            if ch in "CH":
                 tot = tot + c.pre[P(j, ch) + "fc.state.energy_fuel"]
         return tot
 
     def res(c):
         tot = 0
         for j, ch in enumerate(comp):
-            if ch == "B":
+            if ch in "BH":
                 tot = tot + c.pre[P(j, ch) + "res.state.energy_out_chemical"]
         return tot
     c1 = Case(f"consist_get_energy_fuel_{comp}", "C11", "Consist", t, [Call("Consist::get_energy_fuel", [])], None,
@@ -168,7 +168,7 @@ def m_cases(tier):
 
 def _m_cases(tier):
     cs = [consist_rollup_case("C"), consist_rollup_case("B"), consist_rollup_case("H"), consist_rollup_case("C", "Proportional"), train_to_consist_case(1, 2), train_to_consist_case(2, 3)]
-    cs += consist_getters_case("CB") + consist_getters_case("BCB")
+    cs += consist_getters_case("CB") + consist_getters_case("BCB") + consist_getters_case("HC") + consist_getters_case("H")
     if tier == "thorough":
         cs += [consist_rollup_case("B", "Proportional"), consist_rollup_case("CB"), consist_rollup_case("CB", "Proportional"), consist_rollup_case("BC"), consist_rollup_case("CC")]
     return cs
